@@ -664,13 +664,27 @@ func (b *Builder) Loop() {
 	b.depth--
 	delete(b.noDest, cnt)
 	b.emit(ref.Ins{Op: "addi", Rd: cnt, Rs1: cnt, Imm: -1})
-	switch rapid.IntRange(0, 2).Draw(b.t, "backedge") {
+	switch rapid.IntRange(0, 4).Draw(b.t, "backedge") {
 	case 0:
 		b.emit(ref.Ins{Op: "bnez", Rs1: cnt, Label: l})
 	case 1:
 		b.emit(ref.Ins{Op: "bne", Rs1: cnt, Rs2: 0, Label: l})
-	default:
+	case 2:
 		b.emit(ref.Ins{Op: "blt", Rs1: 0, Rs2: cnt, Label: l})
+	default:
+		// while-loop shape: a forward exit test that is not taken until the end
+		// and a backward jump, which the branch target buffer knows from the
+		// second iteration on — no flush between iterations, so that consecutive
+		// iterations overlap in the pipeline
+		out := b.label()
+		if rapid.Bool().Draw(b.t, "exitop") {
+			b.emit(ref.Ins{Op: "beqz", Rs1: cnt, Label: out})
+		} else {
+			b.emit(ref.Ins{Op: "ble", Rs1: cnt, Rs2: 0, Label: out})
+		}
+		b.emit(ref.Ins{Op: "j", Label: l})
+		b.place(out)
+		b.Meta["loop_jump_backedge"]++
 	}
 	b.Meta["loop"]++
 }
